@@ -117,14 +117,33 @@ def gen(rng, idx, tier):
     return case
 
 
+N_ITER_FAMILY = 96
+
+
 def enumerated_count(tier):
-    # exhaustive sweep over all off-diagonal sparsity patterns of small general matrices (first update, flags explicit)
+    # exhaustive sweep over all off-diagonal sparsity patterns of small general matrices (first update, flags explicit), then a
+    # fixed family of histories for an *iterative* inner solver: a block with dependent columns and an initial guess (the columns'
+    # solutions differ by the solver's accuracy, not by rounding), followed by new, scaled and repeated right-hand sides
     if tier == "thorough":
-        return 64 + 4096
-    return 64
+        return 64 + N_ITER_FAMILY + 4096
+    return 64 + N_ITER_FAMILY
 
 
 def enumerated_case(i, tier):
+    if 64 <= i < 64 + N_ITER_FAMILY:
+        j = i - 64
+        cplx = j % 3 == 2
+        ops = [dict(op="update", w=0, seed=5000 + j, pattern="full", scale=[1.0, 1e-5, 1e3][j % 3]),
+               dict(op="solve", w=0, kind="depblock", trans="N", seed=9000 + j, cplx=False, k=[0, 3][j % 2], refs=[0, 1, 2],
+                    coef=[[2.0, 0.0], [-0.5, 0.0], [0.7, 0.0]], x0="rand")]
+        for q, (kind, trans) in enumerate([("fresh", "N"), ("scale", "N"), ("fresh", "H"), ("repeat", "H"), ("combo", "N"), ("zerocol", "N"),
+                                           ("repeat", "N")]):
+            ops.append(dict(op="solve", w=0, kind=kind, trans=trans, seed=13 * j + q, cplx=False, k=0, refs=[q, q + 1, q + 2],
+                            coef=[[1.5, 0.0], [-0.5, 0.0], [0.7, 0.0]], x0="none"))
+        return dict(n=[40, 60, 24, 48][j % 4], cls="hpd" if cplx else "spd", cplx=cplx, inner="cg", sparse=["csc", None, "csc_full"][j % 3],
+                    flags="explicit", tol=1e-7, nwr=1, ops=ops, cg_tol=[1e-10, 1e-9][(j // 4) % 2])
+    if i >= 64 + N_ITER_FAMILY:
+        i -= N_ITER_FAMILY
     if i < 64:
         n, bits = 3, i
     else:
@@ -184,7 +203,7 @@ class Counting:
         return self.inner.solve(rhs, x0=x0, trans=trans)
 
 
-def make_inner(name):
+def make_inner(name, cg_tol=1e-10):
     S = pym.solvers
     if name == "lu":
         return S.SolverDenseLU()
@@ -197,12 +216,12 @@ def make_inner(name):
     if name == "splu":
         return S.SolverSparseLU()
     if name == "cg":
-        return S.CG(tol=1e-10, preconditioner=S.Preconditioner(), maxit=2000)
+        return S.CG(tol=cg_tol, preconditioner=S.Preconditioner(), maxit=2000)
     raise ValueError(name)
 
 
 def make_wrapper(case):
-    inner = Counting(make_inner(case["inner"]))
+    inner = Counting(make_inner(case["inner"], cg_tol=case.get("cg_tol", 1e-10)))
     kw = dict(tol=case["tol"])
     if case["flags"] == "explicit":
         sym, herm = flags_for(case["cls"], case["cplx"])
@@ -306,7 +325,7 @@ def run(case):
                 W[w] = make_wrapper(case)
                 if op["seed"] % 4 == 0:
                     # documented alternative: LDAWrapper(solver, A=A) updates right away
-                    inner_ = Counting(make_inner(case["inner"]))
+                    inner_ = Counting(make_inner(case["inner"], cg_tol=case.get("cg_tol", 1e-10)))
                     kw_ = dict(tol=case["tol"])
                     if case["flags"] == "explicit":
                         sym_, herm_ = flags_for(case["cls"], case["cplx"])
@@ -419,7 +438,7 @@ def run(case):
                 # into a failure; zero columns are excluded, the wrapper exists to shield iterative solvers from them)
                 bare_ok = True
                 try:
-                    bare = make_inner(case["inner"])
+                    bare = make_inner(case["inner"], cg_tol=case.get("cg_tol", 1e-10))
                     bare.update(A)
                     x0c = None if x0 is None else np.asarray(x0).reshape(n, -1)
                     for j in range(bcols.shape[1]):
